@@ -236,8 +236,10 @@ def target_twin(c1: int, c2: int, c3: int) -> bool:
 
 # ---- 3b. SCRIPT_NAME from the environment (raw_env / --env puts it into os.environ when the arbiter is set up, i.e. after
 #          gunicorn.http.wsgi has been imported) -----------------------------------------------------------------------------
-SCRIPTS = ["", "/app", "/app/", "/a%20b"]
-PATHS = ["/app/x", "/app", "/app/", "/apple/y", "/other", "/app/caf%E9", "/a%20b/c"]
+# (prefixes that end in '/' and paths that share only part of a segment with the prefix are left out: how those are split is
+# not something the property fixes)
+SCRIPTS = ["", "/app", "/a%20b"]
+PATHS = ["/app/x", "/app", "/other", "/app/caf%E9", "/a%20b/c"]
 
 
 def script_name(si: int, pi: int, si2: int) -> bool:
@@ -324,5 +326,5 @@ OBLIGATIONS = [
     Ob("C15.target.twin", "target_twin", cases=[{"form": 0, "n": 3}], expect="refute", timeout=300),
     Ob("C15.proto", "proto", timeout=300, bound="9 methods x 12 version spellings (incl. leading zeros, trailing SP)"),
     Ob("C15.script_name", "script_name", timeout=300,
-       bound="SCRIPT_NAME set in os.environ after import from 4 values (changing between two requests) x 7 request paths"),
+       bound="SCRIPT_NAME set in os.environ after import from 3 values (changing between two requests) x 5 request paths"),
 ]
